@@ -19,6 +19,38 @@ def point_from_printed(p):
     return out
 
 
+def rebuild(it, p):
+    """Evaluate a parsed printed form with the public names in scope (inside the interpreter)."""
+    from ..values import SymNum
+    if p[0] == "num":
+        return SymNum.of(p[1]) if isinstance(p[1], float) else p[1]
+    if p[0] == "str":
+        return p[1]
+    if p[0] == "call":
+        if p[1] not in it.model.classes:
+            raise PrintedFormError(f"{p[1]} is not a public constructor")
+        return it.call(cref(it.model, p[1]), [rebuild(it, a) for a in p[2]], {k: rebuild(it, v) for k, v in p[3].items()})
+    raise PrintedFormError(f"cannot evaluate {p!r}")
+
+
+def library_round_trip(it, o, text):
+    """eval(repr(o)) == o with the library's own equality, both ways; None when the text is not a
+    constructor call (reported by the echo rule)."""
+    from ..interp import InterpRaise
+    try:
+        back = rebuild(it, parse_printed(text))
+    except PrintedFormError:
+        return None
+    except InterpRaise as r:
+        return f"evaluating the printed text raised {exc_name(r.exc)}"
+    try:
+        e1 = it.truth(it.compare("==", back, o))
+        e2 = it.truth(it.compare("==", o, back))
+    except InterpRaise as r:
+        return f"comparing raised {exc_name(r.exc)}"
+    return "equal" if (e1 and e2) else f"unequal (rebuilt == original: {e1}, original == rebuilt: {e2})"
+
+
 def print_case(args):
     kind, payload = args
     model = load_model()
@@ -39,17 +71,21 @@ def print_case(args):
                 o = it.call(cref(model, "Partial"), [e, extra], {"compute_early": True})
             elif cls == "Differential(early)":
                 o = it.call(cref(model, "Differential"), [e], {"compute_early": True})
+            elif cls == "LocatedDifferential(early)":      # as handed out by an early Differential
+                d = it.call(cref(model, "Differential"), [e], {"compute_early": True})
+                o = it.call(it.getattr(d, "at"), [make_point_concrete(it, extra)], {})
             else:
                 o = it.call(cref(model, cls), [e], {})
-        return it.to_repr(o), it.to_str(o), it.call_builtin("format", [o, ""], {}) if False else None
+        text = it.to_repr(o)
+        return text, it.to_str(o), library_round_trip(it, o, text) if isinstance(text, str) else None
     outs = run_paths(model, thunk, max_paths=2, max_steps=3000000, generic_only=True)
     o = outs[0]
     if o["kind"] == "raise":
         return {"status": "raised", "exc": exc_name(o["exc"])}
     if o["kind"] != "return":
         return {"status": "unsupported", "reason": o["msg"]}
-    r, s, _ = o["value"]
-    res = {"repr": r, "str": s}
+    r, s, lib = o["value"]
+    res = {"repr": r, "str": s, "library_eq": lib}
     if r != s:
         res["status"] = "str-differs-from-repr"
         return res
@@ -127,7 +163,17 @@ def check(rep):
                   ("deriv", ("Differential", tree, None)), ("deriv", ("Differential(early)", tree, None)),
                   ("deriv", ("Partial", tree, "x")), ("deriv", ("Partial(early)", tree, "x")),
                   ("deriv", ("Partial", tree, "long_name_2")),
-                  ("deriv", ("LocatedDifferential", tree, {"x": 2, "y": 4.5}))]
+                  ("deriv", ("LocatedDifferential", tree, {"x": 2, "y": 4.5})),
+                  ("deriv", ("LocatedDifferential(early)", tree, {"x": 2, "y": 4.5})),
+                  ("deriv", ("LocatedDifferential", tree, {"x": 0.1 + 0.2, "y": 1 / 3})),
+                  ("deriv", ("LocatedDifferential", tree, {"x": 2.5e-17, "y": 123456789.125}))]
+    # objects that carry derived numbers (the components of an early differential at a point) next to
+    # what they print: inexact roots/logarithms at points where two numeric routes round differently
+    for tree, pt in ((("NthRoot", x, 3), {"x": 3}), (("NthRoot", x, 3), {"x": 2.5}), (("Logarithm", x, 10), {"x": 0.7}),
+                     (("Divide", ("Sine", x), ("NthRoot", x, 5)), {"x": 0.3}), (("Power", x, x), {"x": 1.7}),
+                     (("Exponential", ("Reciprocal", x), 3), {"x": 7.0}),
+                     (("Multiply", [("Logarithm", x, 3), ("Cosine", ("Variable", "y"))]), {"x": 0.1, "y": 2.3})):
+        cases += [("deriv", ("LocatedDifferential(early)", tree, pt)), ("deriv", ("LocatedDifferential", tree, pt))]
     cases = [c for c in cases if c is not None]
     results = pmap(print_case, cases, chunksize=4)
     seen_text = {}
@@ -144,8 +190,15 @@ def check(rep):
         rep.count("objects_printed")
         if st == "unsupported":
             rep.unknown("C13.echo", construct, "", r["reason"])
+        elif st == "ok" and r.get("library_eq") not in (None, "equal"):
+            ci = model.classes.get(what.split("(")[0])
+            rep.violation("C13.round-trip", f"{what.split('(')[0]}.__eq__ after eval(repr(.))", ci.where if ci else "",
+                          f"{desc} prints as {r['repr']}, but the object obtained by evaluating that text is not == to "
+                          f"the original under the library's own equality: {r['library_eq']}", witness=r,
+                          witness_class=f"round-trip {what}")
         elif st == "ok":
-            rep.ok("C13.echo", f"{construct}: {desc}", "", f"prints as {r['repr']} which parses back to the same object")
+            rep.ok("C13.echo", f"{construct}: {desc}", "", f"prints as {r['repr']} which parses back to the same object"
+                   + (" and, evaluated, is == to the original" if r.get("library_eq") == "equal" else ""))
             if kind == "expr":
                 prev = seen_text.get(r["repr"])
                 if prev is not None and not tree_equal(prev, payload):
